@@ -34,9 +34,9 @@ func runNullCrash(cfg *runCfg) error {
 	}
 	st.set(&script{http: true, status: 200, body: `{"reject":false,"unchange":false,"content":null}`})
 	st.mu.Lock()
-	st.onlyOp = op
+	st.onlyOp, st.token = op, "crash"
 	st.mu.Unlock()
-	srv, err := startFromConfigFile("127.0.15.2", []cfgEntry{{name: "p1", addr: "http://" + st.addr, ops: []string{op}}}, false, false)
+	srv, err := startFromConfigFile("127.0.15.2", []cfgEntry{{name: "p1", addr: "http://" + st.addr, path: "/handler/crash", ops: []string{op}}}, false, false)
 	if err != nil {
 		return err
 	}
